@@ -151,6 +151,8 @@ class RecApp(app_mod.Application):
                 self.sim.event(e, nested=True)
         if self.raise_on_request == "raise0":
             raise KeyError            # an exception without arguments
+        if self.raise_on_request == "raisenr":
+            raise node_mod.NotRoutable("the handler could not forward the request")
         if self.raise_on_request:
             raise RuntimeError("handler failed")
 
@@ -177,6 +179,8 @@ class RecThreadApp(app_mod.ThreadingApplication):
             raise RuntimeError("handler failed")
         if self.outcome == "raise0":
             raise KeyError            # an exception without arguments
+        if self.outcome == "raisenr":
+            raise node_mod.NotRoutable("the handler could not forward the request")
         if self.outcome == "none":
             return None
         return self.generate_answer(message, result_code=2001)
@@ -237,7 +241,8 @@ class Sim:
         self.peers = []
         for pc in self.peer_cfg:
             name, realm, persistent, always, wait, hasaddr, default = pc[:7]
-            p = n.add_peer(f"aaa://{name}", realm, ["192.0.2.1"] if hasaddr == "1" else None,
+            # (realm "-": added without a realm name -- the documented default is the node's realm)
+            p = n.add_peer(f"aaa://{name}", None if realm == "-" else realm, ["192.0.2.1"] if hasaddr == "1" else None,
                            is_persistent=persistent == "1", is_default=default == "1")
             p.always_reconnect = always == "1"
             p.reconnect_wait = int(wait)
@@ -626,13 +631,26 @@ class Sim:
             msg = Message.from_bytes(build_msg(t[2]))
             msg.header.hop_by_hop_identifier = 0
             timeout = int(t[3]) if len(t) > 3 else 30
-            self.wait_events = [x.replace("_", " ") if "_" in x else x.replace("~", " ") for x in t[4:]]
+            # events marked "!" are played while the request is being handed to the connection (inside send_message: an answer
+            # that comes back before the sender has got any further), the others when the sender blocks
+            fast = [x[1:] for x in t[4:] if x.startswith("!")]
+            self.wait_events = [x.replace("_", " ") if "_" in x else x.replace("~", " ") for x in t[4:] if not x.startswith("!")]
+            orig_send = n.send_message
+            if fast:
+                def send_message(conn, message, _orig=orig_send):
+                    _orig(conn, message)
+                    n.send_message = _orig
+                    self.settle()
+                    for e in fast:
+                        self.event(e.replace("_", " ") if "_" in e else e.replace("~", " "), nested=True)
+                n.send_message = send_message
             try:
                 r = a.send_request(msg, timeout)
                 h = r.header
                 self.obs.append(f"APP a{t[1]} GOT cmd={h.command_code} hbh={h.hop_by_hop_identifier} e2e={h.end_to_end_identifier}")
             except Exception as e:  # noqa
                 self.obs.append(f"APP a{t[1]} RAISE {type(e).__name__}")
+            n.send_message = orig_send
             self.settle()
         elif op == "handler":
             # run the k-th deferred ThreadingApplication handler now
@@ -651,7 +669,7 @@ class Sim:
             if isinstance(a, RecThreadApp):
                 a.outcome = t[2]
             else:
-                a.raise_on_request = t[2] if t[2] in ("raise", "raise0") else False
+                a.raise_on_request = t[2] if t[2] in ("raise", "raise0", "raisenr") else False
         elif op == "stop":
             force = t[1] == "1"
             self.wait_events = [x.replace("_", " ") for x in t[3:]]
